@@ -127,6 +127,11 @@ pub struct World {
     pub onces: Vec<Once>,
     pub handles: Vec<UCell<Option<JoinHandle<i64>>>>,
     pub threads: Vec<UCell<Option<Thread>>>,
+    // ---- async
+    pub flags: Vec<shuttle::sync::atomic::AtomicBool>,
+    pub fwakers: Vec<UCell<Option<std::task::Waker>>>,
+    pub fhandles: Vec<UCell<Option<shuttle::future::JoinHandle<i64>>>>,
+    pub aborts: Vec<UCell<Option<shuttle::future::AbortHandle>>>,
 }
 
 const MAX_TX: usize = 4;
@@ -173,6 +178,10 @@ impl World {
             onces: (0..prog.nonce).map(|_| Once::new()).collect(),
             handles: (0..n).map(|_| UCell::new(None)).collect(),
             threads: (0..n).map(|_| UCell::new(None)).collect(),
+            flags: (0..prog.nflags).map(|_| shuttle::sync::atomic::AtomicBool::new(false)).collect(),
+            fwakers: (0..prog.nflags).map(|_| UCell::new(None)).collect(),
+            fhandles: (0..n).map(|_| UCell::new(None)).collect(),
+            aborts: (0..n).map(|_| UCell::new(None)).collect(),
             prog,
         }
     }
@@ -229,6 +238,20 @@ pub fn run_task(w: Arc<World>, ix: usize) -> i64 {
     let mut i = 0;
     while i < code.len() {
         let op = &code[i];
+        if op.k == "bo_begin" {
+            // the ops up to the matching bo_end run as a future on this thread (shuttle::future::block_on)
+            let mut j = i + 1;
+            while j < code.len() && code[j].k != "bo_end" {
+                j += 1;
+            }
+            log_op(ix, i + 1, "bo_begin", 0);
+            let w2 = Arc::clone(&w);
+            let r = shuttle::future::block_on(run_async(w2, ix, i + 1, j, false));
+            log_op(ix, j + 1, "bo_end", r);
+            acc = r;
+            i = j + 1;
+            continue;
+        }
         if op.k == "scope_begin" {
             // everything up to the matching scope_end runs inside the closure given to thread::scope
             let mut depth = 1;
@@ -395,6 +418,66 @@ fn exec_op<'a>(warc: &Arc<World>, w: &'a World, _ix: usize, op: &Op, guards: &mu
             }
         },
         "panic" => panic!("boom-{}", op.v),
+        // ---- async tasks
+        "spawn_future" => {
+            let child = op.v as usize;
+            let w2 = Arc::clone(warc);
+            let n = w.prog.tasks[child].len();
+            let h = shuttle::future::spawn_local(run_async(w2, child, 0, n, true));
+            *w.aborts[child].get() = Some(h.abort_handle());
+            *w.fhandles[child].get() = Some(h);
+            0
+        }
+        "set_flag" => {
+            w.flags[o].store(true, Ordering::SeqCst);
+            if let Some(wk) = w.fwakers[o].get().take() {
+                wk.wake();
+            }
+            0
+        }
+        "wake_only" => {
+            // reading the waker slot is made a visible operation (an atomic load precedes it)
+            let _ = w.flags[o].load(Ordering::SeqCst);
+            if let Some(wk) = w.fwakers[o].get().as_ref() {
+                wk.wake_by_ref();
+                1
+            } else {
+                0
+            }
+        }
+        "abort" => {
+            let a = w.aborts[op.v as usize].get().as_ref().expect("abort: unknown task").clone();
+            a.abort();
+            0
+        }
+        "detach" => {
+            let h = w.fhandles[op.v as usize].get().take().expect("detach: no handle");
+            drop(h);
+            0
+        }
+        // poll the JoinHandle once with a no-op waker (a `now_or_never` probe): -5 = still pending
+        "try_join" => {
+            use std::future::Future;
+            let slot = w.fhandles[op.v as usize].get();
+            let mut h = slot.take().expect("try_join: no handle");
+            let waker = noop_waker();
+            let mut cx = std::task::Context::from_waker(&waker);
+            match std::pin::Pin::new(&mut h).poll(&mut cx) {
+                std::task::Poll::Ready(Ok(v)) => v,
+                std::task::Poll::Ready(Err(_)) => -8,
+                std::task::Poll::Pending => {
+                    *slot = Some(h);
+                    -5
+                }
+            }
+        }
+        "is_finished" => {
+            if w.aborts[op.v as usize].get().as_ref().expect("is_finished: unknown task").is_finished() {
+                1
+            } else {
+                0
+            }
+        }
         "rand" => {
             use shuttle::rand::RngCore;
             (shuttle::rand::thread_rng().next_u64() % 4) as i64
@@ -657,4 +740,99 @@ fn exec_op<'a>(warc: &Arc<World>, w: &'a World, _ix: usize, op: &Op, guards: &mu
         }
         other => panic!("unknown op kind {other}"),
     }
+}
+
+
+// ------------------------------------------------------------------------------------------
+// async interpreter (future tasks, and block_on sections of threads)
+
+fn noop_waker() -> std::task::Waker {
+    use std::task::{RawWaker, RawWakerVTable, Waker};
+    fn clone(_: *const ()) -> RawWaker {
+        RawWaker::new(std::ptr::null(), &VT)
+    }
+    fn noop(_: *const ()) {}
+    static VT: RawWakerVTable = RawWakerVTable::new(clone, noop, noop, noop);
+    unsafe { Waker::from_raw(RawWaker::new(std::ptr::null(), &VT)) }
+}
+
+struct FlagFut {
+    w: Arc<World>,
+    f: usize,
+}
+
+impl std::future::Future for FlagFut {
+    type Output = ();
+    fn poll(self: std::pin::Pin<&mut Self>, cx: &mut std::task::Context<'_>) -> std::task::Poll<()> {
+        // the load is a Shuttle atomic: a scheduling point inside every poll
+        if self.w.flags[self.f].load(Ordering::SeqCst) {
+            std::task::Poll::Ready(())
+        } else {
+            *self.w.fwakers[self.f].get() = Some(cx.waker().clone());
+            std::task::Poll::Pending
+        }
+    }
+}
+
+/// Logs if the future is dropped before it ran to completion (abort, or end of an abandoned execution).
+struct DropLog {
+    ix: usize,
+    done: bool,
+    is_task: bool,
+}
+
+impl Drop for DropLog {
+    fn drop(&mut self) {
+        if !self.done && self.is_task && !std::thread::panicking() {
+            let t = shuttle::current::get_current_task().map(|t| usize::from(t) as i64).unwrap_or(-1);
+            if t >= 0 {
+                log(json!({"e":"fdrop","t":t,"c":self.ix}));
+            }
+        }
+    }
+}
+
+pub async fn run_async(w: Arc<World>, ix: usize, from: usize, to: usize, is_task: bool) -> i64 {
+    let mut dl = DropLog { ix, done: false, is_task };
+    let wr: &World = &w;
+    let mut guards: Vec<Option<Guard>> = (0..4).map(|_| None).collect();
+    let mut acc: i64 = 0;
+    let code: &Vec<Op> = &wr.prog.tasks[ix];
+    for i in from..to {
+        let op = &code[i];
+        let o = op.o as usize;
+        let r: i64 = match op.k.as_str() {
+            "ayield" => {
+                shuttle::future::yield_now().await;
+                0
+            }
+            "await_flag" => {
+                FlagFut { w: Arc::clone(&w), f: o }.await;
+                0
+            }
+            "await_join" => {
+                match wr.fhandles[op.v as usize].get().take() {
+                    // the handle was consumed by an earlier successful probe
+                    None => -6,
+                    Some(h) => match h.await {
+                        Ok(v) => v,
+                        Err(_) => -8,
+                    },
+                }
+            }
+            "acquire" => match wr.sems[o].acquire(op.v as usize).await {
+                Ok(()) => 0,
+                Err(_) => -1,
+            },
+            _ => exec_op(&w, wr, ix, op, &mut guards, acc),
+        };
+        log_op(ix, i + 1, &op.k, r);
+        acc = r;
+    }
+    if is_task {
+        log_op(ix, code.len() + 1, "ret", acc);
+    }
+    dl.done = true;
+    drop(guards);
+    acc
 }
